@@ -34,6 +34,19 @@ def main():
     ap.add_argument('--replay', default=None)
     args = ap.parse_args()
     prop = args.prop
+    if prop == 'setup':
+        # MANIFEST.setup_cmd: regenerate the source-derived Lean files from /repo FIRST (a stale committed copy must never
+        # decide anything), build models + theorems + driver (must succeed), then the source-derived obligations (a failure
+        # there concerns C16 alone and is reported by C16's check, not by the setup)
+        import subprocess
+        generated_hook()
+        r = subprocess.run(['lake', 'build', 'Rbql', 'rbql_model'], cwd=str(common.LEAN_DIR))
+        if r.returncode != 0:
+            sys.exit(r.returncode)
+        r = subprocess.run(['lake', 'build', 'RbqlGen'], cwd=str(common.LEAN_DIR))
+        if r.returncode != 0:
+            print('setup: source-derived obligations (RbqlGen) do not build on this tree; C16 will report it')
+        sys.exit(0)
     tier = args.tier if args.tier in ('quick', 'thorough') else 'quick'
     seed = int(os.environ.get('VERIF_SEED', '0') or 0)
     res = Result(prop, tier, seed)
